@@ -31,8 +31,11 @@ META = {
                   "register as found on return and on raise, boxes own fresh arrays, and the constructors / classmethods that promise a new "
                   "object return nothing that outlives the call (decorators other than classmethod/staticmethod/property fail closed). PARTIAL (guard named in the theorem): rotation "
                   "additivity for angles that are 0 or outside the code's own 1e-12 cut-off; signed-angle antisymmetry when the "
-                  "reference normal is not in the plane of the two vectors (C12_signed_angle_guard_is_needed shows the guard is "
-                  "necessary). The model is tied to the running code by kernel-evaluated correspondence batches on call sequences "
+                  "reference normal is not in the plane of the two vectors. REFUTED: the unguarded signed-angle antisymmetry "
+                  "(C12_signed_angle_antisymmetric_refuted, witness V1=(1,0,0), V2=(0,1,0), N=(1,0,0): pi/2 in both orders; known "
+                  "findings fn/sangle2|sangle3/antisymmetric/normal-in-plane, replayed from corpus/C12/09 on every run). Also "
+                  "proved: the operators and properties & | dim mini maxi x y z xy and the setters are the expected plumbing "
+                  "(C12_operators_and_properties, C12_setter_writes_one_component). The model is tied to the running code by kernel-evaluated correspondence batches on call sequences "
                   "(exact through Q, binary64 with tolerance for sqrt).",
     "level_note": "DELIBERATELY LEFT FREE by the oracle (the property text does not fix them): the exception class and message of a "
                   "refused call, and whether a malformed / degenerate input (corners or operands of different sizes, wrong-size point or "
@@ -243,8 +246,12 @@ def gen_box_prog(rng):
             boxes.append(nb)
         elif r < 0.79:
             P.ops.append(["do_intersect", b, rng.choice(boxes)])
+        elif r < 0.81:
+            P.ops.append([rng.choice(["is_empty", "dim", "mini", "maxi"]), b])
         elif r < 0.83:
-            P.ops.append(["is_empty", b])
+            nb = P.newbox()
+            P.ops.append([rng.choice(["and", "or"]), nb, b, rng.choice(boxes)])
+            boxes.append(nb)
         elif r < 0.89:
             # the returned array is the caller's: writing into it must not reach the box, and a second call gives a new one
             k2 = rng.choice(["span", "center"])
@@ -282,7 +289,7 @@ def gen_box_prog(rng):
                       {"form": draw_form(rng, pd, 0), "sreps": [draw_srep(rng, pd)]}])
     # TWINS: every call that returns a box, repeated with the same arguments, must return an object sharing nothing with
     # the first one: the first result is then modified in place (pad) and the second one looked at again
-    makers = [(j, o) for j, o in enumerate(P.ops) if o[0] in ("box", "ofpts", "union", "inter", "unit_cube", "infinite", "of_mesh")]
+    makers = [(j, o) for j, o in enumerate(P.ops) if o[0] in ("box", "ofpts", "union", "inter", "and", "or", "unit_cube", "infinite", "of_mesh")]
     if makers and rng.random() < 0.5:
         j, o = rng.choice(makers)
         twin = list(o)
@@ -468,6 +475,13 @@ def gen_vec_prog(rng):
                 v[0] = 1
             wk = rng.choice(KINDS)
             P.ops.append(["normalize", P.arr(v, "f"), wk, {"form": draw_form(rng, wk, "l2")}])
+        elif r2 < 0.46 and r2 >= 0.40:
+            # the coordinate properties of Vec: getters, and the documented in-place setters
+            sl = P.arr(rand_vec(rng, 3, style), "f")
+            c_ = rng.choice(["x", "y", "z"])
+            P.ops.append(["getc", sl, rng.choice(["x", "y", "z", "xy"])])
+            P.ops.append(["vecset", sl, c_, float(rng.choice([5, -2, 0.25])) * P.scale])
+            P.ops.append(["getc", sl, c_])
         elif r2 < 0.40:
             # a Vec constructor called twice: the results share nothing; write into the first, look at the second
             nm = rng.choice(["zeros", "X", "Y", "Z", "random"])
@@ -580,6 +594,14 @@ def op_term(op, ob):
         return "(OInfinite %s %s)" % (zlit(op[1]), zlit(op[2]))
     if k == "of_mesh":
         return "(OOfMesh %s %s %s)" % (zlit(op[1]), zlist(op[2]), opt_term(given, q(op[3])))
+    if k in ("dim", "mini", "maxi"):
+        return "(%s %s)" % ({"dim": "ODim", "mini": "OMini", "maxi": "OMaxi"}[k], zlit(op[1]))
+    if k in ("and", "or"):
+        return "(%s %s %s %s)" % ("OAnd" if k == "and" else "OOr", zlit(op[1]), zlit(op[2]), zlit(op[3]))
+    if k == "getc":
+        return "(OGetC %s %s)" % (zlit(op[1]), zlit(["x", "y", "z", "xy"].index(op[2])))
+    if k == "vecset":
+        return "(OVecSet %s %s %s)" % (zlit(op[1]), zlit(["x", "y", "z"].index(op[2])), q(op[3]))
     if k == "vec_ctor":
         code = {"zeros": 0, "X": 1, "Y": 2, "Z": 3}.get(op[1], 9)
         va, vb = (ob["r"][1] if ob["exc"] is None and ob["r"][0] == "vs" else [[], []])
@@ -747,6 +769,9 @@ def oracle_prog(prog, obs):
             continue
         if k == "seterr":
             continue
+        if k == "vecset":
+            op = ["setcomp", op[1], ["x", "y", "z"].index(op[2]), op[3]]
+            k = "setcomp"
         if k == "setcomp":
             others = [c for c in ob["arrchg"] if c[0] != op[1]] + list(ob["boxchg"])
             if others:
@@ -798,7 +823,7 @@ def oracle_prog(prog, obs):
         if exc is None and k in ("span", "center") and "store" in optd(op) and r[0] == "v" and finite(r[1]):
             A[optd(op)["store"]] = frs(r[1])
         if exc is None:
-            if k in ("box", "ofpts", "union", "inter", "unit_cube", "of_mesh") and r[0] == "box" and finite(r[1]) and finite(r[2]):
+            if k in ("box", "ofpts", "union", "inter", "and", "or", "unit_cube", "of_mesh") and r[0] == "box" and finite(r[1]) and finite(r[2]):
                 B[op[1]] = (frs(r[1]), frs(r[2]))
         for c in ob["boxchg"]:
             if finite(c[1]) and finite(c[2]):
@@ -832,7 +857,7 @@ def refusable_input(op, A, B):
         if len(A[o[2]]) != len(B[o[1]][0]):
             return True
         return k == "distance" and o[3] not in KINDS
-    if k in ("union", "inter", "do_intersect"):
+    if k in ("union", "inter", "do_intersect", "and", "or"):
         return len(B[o[-2]][0]) != len(B[o[-1]][0])
     if k == "normalize":
         return all(x == 0 for x in A[o[1]]) or o[2] not in KINDS
@@ -900,6 +925,21 @@ def oracle_op(i, op, ob, A, B, ops, obs, bad):
                     or not any(feq(lo[j] + pad, x) for x in col) or not any(feq(hi[j] - pad, x) for x in col):
                 bad(i, "box/of_points/tight", "box of %s (padding %s) is [%s, %s] in coordinate %d" % (col, pad, lo[j], hi[j], j))
                 return
+        return
+    if k == "dim":
+        if not feq(r[1], len(B[op[1]][0])):
+            bad(i, "box/dim", "dim = %s" % r[1])
+        return
+    if k in ("mini", "maxi"):
+        if not veq(r[1], B[op[1]][0 if k == "mini" else 1]):
+            bad(i, "box/" + k, "%s = %s" % (k, r[1]))
+        return
+    if k == "getc":
+        v = A[op[1]]
+        want = v[:2] if op[2] == "xy" else [v["xyz".index(op[2])]]
+        got = r[1] if op[2] == "xy" else [r[1]]
+        if not veq(got, want):
+            bad(i, "fn/vec/" + op[2], "Vec(%s).%s = %s" % (v, op[2], r[1]))
         return
     if k == "vec_ctor":
         if exc or r[0] != "vs":
@@ -1018,6 +1058,8 @@ def oracle_op(i, op, ob, A, B, ops, obs, bad):
         if inside_closed and not feq(val, 0):
             bad(i, "box/distance/contained", "contained point %s at distance %s" % (p, val))
         return
+    if k in ("and", "or"):
+        k = "inter" if k == "and" else "union"
     if k in ("union", "inter", "do_intersect"):
         (l1, h1), (l2, h2) = B[op[-2]], B[op[-1]]
         if len(l1) != len(l2):
@@ -1183,8 +1225,13 @@ def oracle_fn(i, op, ob, A, ops, obs, bad):
                 bad(i, "fn/%s/value" % name, "%s(%s) = %s" % (name, a, t))
             pr = prev_swapped([1, 0, 2] if name == "sangle2" else [2, 1, 0, 3])
             # antisymmetric (mod 2 pi) whenever the reference normal orients the pair (or the vectors are collinear)
-            if pr is not None and (sn != 0 or fdot(cr, cr) == 0) and not ang_cong(pr[3], -t):
-                bad(i, "fn/%s/antisymmetric" % name, "%s is %s one way round and %s the other" % (name, pr[3], t))
+            if pr is not None and not ang_cong(pr[3], -t):
+                if sn != 0 or fdot(cr, cr) == 0:
+                    bad(i, "fn/%s/antisymmetric" % name, "%s is %s one way round and %s the other" % (name, pr[3], t))
+                else:
+                    # the reference normal lies in the plane of the two (non-collinear) vectors: listed known finding
+                    bad(i, "fn/%s/antisymmetric/normal-in-plane" % name,
+                        "%s%s is %s one way round and %s the other: (V1 x V2).N = 0, sign0(0) = +1 in both orders" % (name, tuple(a), pr[3], t))
         else:
             pr = prev_swapped([1, 0])
             if pr is not None and not ang_cong(pr[3], -t):
@@ -1518,8 +1565,12 @@ def op_uses(op):
         return [], [op[1]], None
     if k in ("contains", "project", "distance"):
         return [op[2]], [op[1]], None
-    if k in ("union", "inter"):
+    if k in ("union", "inter", "and", "or"):
         return [], [op[2], op[3]], op[1]
+    if k in ("dim", "mini", "maxi"):
+        return [], [op[1]], None
+    if k in ("getc", "vecset"):
+        return [op[1]], [], None
     if k == "do_intersect":
         return [], [op[1], op[2]], None
     if k == "fn":
@@ -1555,7 +1606,7 @@ def slice_prog(ops, i):
         elif o[0] in ("span", "center") and optd(o).get("store") in need_a:
             keep.add(j)
             need_b.add(o[1])
-        elif o[0] == "setcomp":
+        elif o[0] in ("setcomp", "vecset"):
             if o[1] in need_a:
                 keep.add(j)
         else:
@@ -1616,8 +1667,8 @@ def run(ctx):
     ]
     ctx.notes += [
         "correspondence + oracle only (no theorem): quad_area, aspect_ratio, distance_to_segment2D, of_mesh, Vec.normalize, "
-        "Vec.outer; oracle only (atan2 value / infinite corners): axis_rot_from_z, AABB.infinite; event table only: "
-        "match_rotation (scipy), Vec.random/zeros/X/Y/Z/from_complex, __repr__/__and__/__or__",
+        "Vec.outer, Vec.zeros/X/Y/Z; oracle only (atan2 value / infinite corners / random values): axis_rot_from_z, "
+        "AABB.infinite, Vec.random; event table only: match_rotation (scipy), Vec.from_complex, __repr__, __new__",
         "every call that returns a box (AABB, of_points, of_mesh, unit_cube, infinite, union, intersection) and every Vec "
         "constructor (zeros, X, Y, Z, random) is also made twice with the same arguments: the results must share no buffer "
         "(np.shares_memory), the first is modified in place (pad / component write) and the second, and a third made "
